@@ -379,6 +379,13 @@ func (e *Env) field(a Val, name string) Val {
 		if st, ok := t.Underlying().(*types.Struct); ok {
 			for i := 0; i < st.NumFields(); i++ {
 				if st.Field(i).Embedded() {
+					if _, isStruct := st.Field(i).Type().Underlying().(*types.Struct); isStruct {
+						// promote through the location: the embedded struct may hold fields that cannot be loaded as a value
+						if j, ok := fieldIndex(st.Field(i).Type(), name); ok {
+							return e.vc.load(e.st, a.L.extend(pathElem{Field: i}).extend(pathElem{Field: j}))
+						}
+						continue
+					}
 					inner := e.vc.load(e.st, a.L.extend(pathElem{Field: i}))
 					r := e.fieldQuiet(inner, name)
 					if r.K != KBad {
@@ -686,6 +693,12 @@ func (e *Env) call(x *SExpr) Val {
 	case "has":
 		// has(m, k): key k is present in map m
 		m, k := argv(0), argv(1)
+		if m.K == KBad {
+			return m
+		}
+		if m.T == nil {
+			return e.fail("has: untyped map argument")
+		}
 		mt, ok := m.T.Underlying().(*types.Map)
 		if m.K != KRef || !ok {
 			return e.fail("has: not a map")
